@@ -16,6 +16,7 @@ import PintModel.Model.GroupSys
 import PintModel.Model.Rewrite
 import PintModel.Model.Wraps
 import PintModel.Model.Measure
+import PintModel.Model.Serial
 import PintModel.Gen.DefaultRegistry
 
 open Lean
@@ -604,6 +605,31 @@ def stepMeas (st : DriverState) (j : Json) : DriverState × Json :=
       | _, _ => (st, badJ "meas paren_std"))
   | _ => (st, badJ "meas: f")
 
+
+/-! ### serialisation (C18) -/
+
+def stepSer (st : DriverState) (j : Json) : DriverState × Json :=
+  let R0 := st.reg
+  match fStr j "f" with
+  | some "tuple" =>
+    (match field j "a" >>= jQty? with
+      | some q => (st, okJ (qtyJ (Ser.fromTuple (Ser.toTuple q))))
+      | none => (st, badJ "ser tuple: a"))
+  | some "unpickle" =>
+    (match field j "a" >>= jQty? with
+      | some q =>
+        (match Ser.unpickleQ R0 (Ser.reduceQ q) with
+          | .error e => (st, errJ e)
+          | .ok (R', q') =>
+            let added := (q.units.keys.filter fun k => R'.units.contains k)
+            (st, okJ (Json.mkObj [("q", qtyJ q'), ("registered", strsJ added)])))
+      | none => (st, badJ "ser unpickle: a"))
+  | some "cross" =>
+    (match fStr j "op" with
+      | some _ => (st, exceptJ (fun _ => Json.null) (Ser.crossOp .add 0 1))
+      | none => (st, badJ "ser cross: op"))
+  | _ => (st, badJ "ser: f")
+
 /-! ### registry queries (C01, C02, C08) -/
 
 def stepReg (st : DriverState) (op : String) (j : Json) : DriverState × Json :=
@@ -737,6 +763,7 @@ def step (st : DriverState) (j : Json) : DriverState × Json :=
   | some "rw" => stepRw st j
   | some "wraps" => stepWraps st j
   | some "meas" => stepMeas st j
+  | some "ser" => stepSer st j
   | some op => stepReg st op j
 
 end Pint
